@@ -3,10 +3,11 @@
 Tie (correspondence): random entity models — explicit / auto / composite primary key, unique attributes, composite keys,
 optional attributes with None, a class hierarchy (base class references later loaded as a subclass), a helper entity R
 whose rows reference the entity (seeds, navigation, prefetch) and, in some models, a required one-to-one reference whose
-update makes the constructor fail AFTER the identity map was touched — are built as real Pony classes over in-memory
+update makes the constructor fail AFTER the identity map was touched, and, in some, a parent entity P whose delete cascades
+to the objects and is then refused by a second collection (nested deletes undone) — are built as real Pony classes over in-memory
 SQLite and pre-populated.  A random history of calls runs inside one db_session: constructor calls (valid, key
 conflicts, pk conflicts, late failures), attribute assignment and set(**kw) (valid and conflicting, key parts, None),
-delete, flush (auto primary keys), E[pk], get(**kw) by primary / unique / composite key, select() with and without a
+delete, P.delete() (cascade, refused or not), flush (auto primary keys), E[pk], get(**kw) by primary / unique / composite key, select() with and without a
 filter, select_by_sql with a subset of the columns, obj.load(), navigation r.e, prefetch, pickle / unpickle in the same
 session, proxies, attribute reads.  Every real call is translated into a group of operations of the Lean model
 (`Model/KeyIndex.lean`); after EVERY call the outcome, the identity (creation number) of every returned object, every
@@ -29,7 +30,7 @@ _world_counter = [0]
 
 # ---------------------------------------------------------------- models
 
-def gen_spec(rng):
+def _gen_spec_base(rng):
     n = rng.choice([1, 2, 2, 3, 3, 4])
     unique = [rng.random() < 0.5 for _ in range(n)]
     ckeys = []
@@ -41,7 +42,15 @@ def gen_spec(rng):
     nsub = rng.choice([0, 0, 1, 2])
     parents = [None] + ([0] if nsub >= 1 else []) + ([rng.choice([0, 1])] if nsub == 2 else [])
     return {'nattrs': n, 'unique': unique, 'ckeys': ckeys, 'pk': rng.choice(['explicit', 'explicit', 'auto', 'auto', 'composite']),
-            'parents': parents, 'with_h': rng.random() < 0.2}
+            'parents': parents, 'with_h': rng.random() < 0.2, 'with_p': False}
+
+
+def gen_spec(rng):
+    spec = _gen_spec_base(rng)
+    # a parent entity P: `items = Set(E0, cascade_delete=True)` followed by a collection that REFUSES the delete
+    spec['with_p'] = (not spec['with_h']) and rng.random() < 0.3
+    return spec
+
 
 
 class World:
@@ -62,16 +71,22 @@ class World:
         for k in spec['ckeys']: L.append('    composite_key(%s)' % ', '.join('a%d' % i for i in k))
         L.append("    rs = Set('R', reverse='e')")
         if spec['with_h']: L.append("    h = Required('H')")
+        if spec.get('with_p'): L.append("    p = Optional('P')")
         for c in range(1, len(parents)):
             L.append('class E%d(E%d):' % (c, parents[c]))
             L.append("    rf = Set('R', reverse='f')" if c == 1 else '    pass')
         L += ['class R(db.Entity):', "    e = Optional(E0, reverse='rs')"]
         if len(parents) > 1: L.append("    f = Optional(E1, reverse='rf')")
         if spec['with_h']: L += ['class H(db.Entity):', '    e = Optional(E0)']
+        if spec.get('with_p'):
+            # deleting a P cascades to its items FIRST (declaration order), then the second collection refuses when it is not empty
+            L += ['class P(db.Entity):', "    items = Set('E0', cascade_delete=True)", "    locks = Set('L', cascade_delete=False)",
+                  'class L(db.Entity):', "    p = Required('P')"]
         self.source = '\n'.join(L)
         exec(self.source, ns)
         self.classes = [ns['E%d' % c] for c in range(len(parents))]
-        self.E0 = self.classes[0]; self.R = ns['R']; self.H = ns.get('H')
+        self.E0 = self.classes[0]; self.R = ns['R']; self.H = ns.get('H'); self.P = ns.get('P'); self.L = ns.get('L')
+        self.ps = []
         if dbfile is None: db.bind('sqlite', ':memory:')
         else: db.bind('sqlite', dbfile, create_db=True)
         db.generate_mapping(create_tables=True)
@@ -142,6 +157,12 @@ class World:
         return self.cache().indexes[self.pk_attrs].get(self.pkt(pk))
 
     # ---- setup
+    def populate_parents(self):
+        if self.P is None: return
+        with db_session:
+            p0 = self.P(); self.P()
+            self.L(p=p0)               # P[1] refuses to be deleted, P[2] does not
+
     def populate(self, rng):
         n = len(self.attrs)
         with db_session:
@@ -218,6 +239,9 @@ class World:
                 late = cur is not None
                 kw['h'] = h
             else: kw['h'] = self.H()
+        if op.get('parent') is not None:
+            if not self.ps or self.ps[op['parent']]._status_ in DEL: raise StaleOp()
+            kw['p'] = self.ps[op['parent']]
         cls = self.classes[op['cls']]
         err, res = self.call(lambda: cls(**kw))
         pk = [kw['p0'], kw['p1']] if self.composite_pk else ([kw['id']] if 'id' in kw else None)
@@ -245,13 +269,35 @@ class World:
         if self.H and o._status_ not in DEL:
             h = o._vals_.get(self.E0.h)            # the required one-to-one: un-linking it inside delete would load rows
             if h is None or self.H.e not in h._vals_: raise StaleOp()
+        st = self.load_state()
         err, _ = self.call(o.delete)
-        res = {'err': err, 'yields': None, 'mops': [{'k': 'delete', 'o': op['o']}]}
+        # a reference that is not loaded (`p` of an object known by primary key only) makes delete load the row first
+        loads = self.infer_loads(st) if self.P is not None else []
+        res = {'err': err, 'yields': None, 'mops': loads + [{'k': 'delete', 'o': op['o']}]}
+        if loads: res['inferred'] = True
         if err is not None:
             # delete reads the rows of R that reference the object; a typed reference (R.f -> E1) naming an object of the base
             # class with read/write bits makes THAT fail (class refinement): relationship code, outside this model
             res['outside_model'] = True; res['end'] = True
         return res
+
+    def op_pdelete(self, op):
+        """P[i].delete(): cascades to the E objects in its `items`; P[1] then refuses (its `locks` is not empty): everything is undone"""
+        if not self.ps: raise StaleOp()
+        p = self.ps[op['p']]
+        if p._status_ in DEL: raise StaleOp()
+        kids = [i for i, o in enumerate(self.objs) if o._status_ not in DEL and o._vals_ is not None and o._vals_.get(self.E0.p) is p]
+        st = self.load_state()
+        err, _ = self.call(p.delete)
+        loads = self.infer_loads(st)          # reading `items` re-fetches the rows of the flushed children
+        if err == 'ConstraintError':
+            return {'err': err, 'yields': None, 'mops': loads + [{'k': 'cascadeFail', 'children': kids}], 'nkids': len(kids)}
+        if err is None:
+            q = [o for o in self.cache().objects_to_save if o is not None]
+            pos = lambda i: next((j for j, x in enumerate(q) if x is self.objs[i]), -1)
+            kids.sort(key=pos)
+            return {'err': None, 'yields': None, 'mops': loads + [{'k': 'delete', 'o': i} for i in kids], 'nkids': len(kids), 'cascade_ok': True}
+        return {'err': err, 'yields': None, 'mops': loads, 'outside_model': True, 'end': True}
 
     def op_flush(self, op):
         cache = self.cache()
@@ -402,10 +448,10 @@ class World:
             mops.append({'k': 'seed', 'cls': self.cidx(o), 'pk': self.pkl(o)})
         seeds = cache.seeds[self.pk_attrs]
         rows = {tuple(r['pk']): r for r in self.db_rows()}
-        for o in sorted([o for o in self.objs if o._pkval_ is not None and o._status_ not in DEL], key=lambda o: self.pkl(o)):
+        for o in sorted([o for o in self.objs if o._pkval_ is not None and o._status_ not in ('deleted', 'cancelled') and o._vals_ is not None], key=lambda o: self.pkl(o)):
             was = before_state.get(id(o))
-            now = (o in seeds, frozenset(a for a in self.attrs if a in o._vals_))
-            if was is None: was = (True, frozenset())
+            now = (o in seeds, frozenset(a for a in self.attrs if a in o._vals_), frozenset(a for a in self.attrs if o._dbvals_ is not None and a in o._dbvals_))
+            if was is None: was = (True, frozenset(), frozenset())
             if was != now and tuple(self.pkl(o)) in rows:
                 mops.append(self.row_mop(rows[tuple(self.pkl(o))]))
         return mops
@@ -413,7 +459,8 @@ class World:
     def load_state(self):
         cache = self.cache()
         seeds = cache.seeds[self.pk_attrs]
-        return {id(o): (o in seeds, frozenset(a for a in self.attrs if o._vals_ is not None and a in o._vals_)) for o in self.objs}
+        return {id(o): (o in seeds, frozenset(a for a in self.attrs if o._vals_ is not None and a in o._vals_),
+                        frozenset(a for a in self.attrs if o._dbvals_ is not None and a in o._dbvals_)) for o in self.objs}
 
     def op_nav(self, op):
         """r = R[id]; r.e / r.f"""
@@ -548,7 +595,11 @@ def gen_op(rng, w):
     if r < 0.2 or not objs:
         op = {'k': 'create', 'cls': rng.randrange(len(w.classes)), 'kw': w.rand_create_kw(rng)}
         if w.H and live and rng.random() < 0.3: op['steal'] = rng.choice(live)
+        if w.ps and rng.random() < 0.7: op['parent'] = rng.choice([0, 0, 1])
         return op
+    if w.ps and r < 0.27:
+        withkids = [i for i, p in enumerate(w.ps) if p._status_ not in DEL and any(o._status_ not in DEL and o._vals_ and o._vals_.get(w.E0.p) is p for o in objs)]
+        if withkids or rng.random() < 0.3: return {'k': 'pdelete', 'p': rng.choice(withkids) if withkids else rng.choice([0, 1])}
     any_obj = rng.choice(objs and range(len(objs)))
     o = rng.choice(live) if live and rng.random() < 0.9 else any_obj
     if r < 0.38:
@@ -610,10 +661,12 @@ def run_history(spec, pop_seed, ops=None, rng=None, nops=0, ctx=None, dbfile=Non
     """runs a history on fresh real classes; `ops` given: replay exactly; else generate `nops` calls with `rng`.
     returns (world, trace) with trace = [(op, result, snapshot, oracle findings)]"""
     w = World(spec, dbfile=dbfile)
+    w.populate_parents()
     if pop_seed is not None: w.populate(random.Random(pop_seed))       # None: the history starts on an empty database
     trace = []
     with db_session:
         w.raw()
+        if w.P is not None: w.ps = list(w.P.select().order_by(w.P.id))
         pending = list(ops) if ops is not None else first_ops(rng, w)
         count = 0
         while True:
@@ -756,13 +809,14 @@ def histories_chunk(ctx, rng, nhist, nops):
             w, trace = run_history(spec, pop_seed, rng=sub, nops=nops, ctx=ctx)
         except core.ERDiagramError as e:
             ctx.count('model-rejected:' + type(e).__name__); continue
-        ctx.count('model:pk=%s,keys=%d,classes=%d%s' % (spec['pk'], len(w.keys), len(w.classes), ',late-failure' if spec['with_h'] else ''))
+        ctx.count('model:pk=%s,keys=%d,classes=%d%s%s' % (spec['pk'], len(w.keys), len(w.classes), ',late-failure' if spec['with_h'] else '', ',cascade-parent' if spec.get('with_p') else ''))
         for op, res, snap, bad in trace:
             ctx.count('call:%s:%s' % (op['k'], res['err'] or 'ok'))
             ctx.case({'model': w.model_schema, 'call': op}, nontrivial=True, kind=op['k'])
             for mop in res['mops']: ctx.count('model-op:' + mop['k'] + (':unpickling' if mop.get('unpickling') else '') + (':late-failure' if mop.get('lateFail') else ''))
             if res.get('queried') is False: ctx.count('get:answered-from-cache')
             if res.get('side_seeds'): ctx.count('side-effect-seeds:' + op['k'], res['side_seeds'])
+            if 'nkids' in res: ctx.count('cascade:%s:children=%d' % ('refused' if res['err'] else 'done', min(res['nkids'], 3)))
             if bad:
                 ctx.count('oracle:' + bad[0][0])
                 report(ctx, spec, pop_seed, [t[0] for t in trace], classify(op, res, bad[0][0]), bad[0][1])
@@ -779,8 +833,8 @@ def histories_chunk(ctx, rng, nhist, nops):
         compare(ctx, w, spec, pop_seed, trace, steps)
 
 
-def _spec(n, unique, ckeys=(), pk='explicit', parents=(None,), with_h=False):
-    return {'nattrs': n, 'unique': list(unique), 'ckeys': [list(k) for k in ckeys], 'pk': pk, 'parents': list(parents), 'with_h': with_h}
+def _spec(n, unique, ckeys=(), pk='explicit', parents=(None,), with_h=False, with_p=False):
+    return {'nattrs': n, 'unique': list(unique), 'ckeys': [list(k) for k in ckeys], 'pk': pk, 'parents': list(parents), 'with_h': with_h, 'with_p': with_p}
 
 DIRECTED = [
     # a constructor that fails AFTER the identity map was touched (repaired in /repo, 19b6b9f): no zombie under its primary key
@@ -799,6 +853,13 @@ DIRECTED = [
     ('unpickle-after-delete', _spec(1, [True]),
      [{'k': 'create', 'cls': 0, 'kw': {'id': 1, 'a0': 5}}, {'k': 'flush'}, {'k': 'pickle', 'o': 0}, {'k': 'delete', 'o': 0}, {'k': 'flush'},
       {'k': 'create', 'cls': 0, 'kw': {'id': 2, 'a0': 5}}, {'k': 'unpickle', 'd': 0}, {'k': 'create', 'cls': 0, 'kw': {'id': 1}}]),
+    # a delete that cascades to never-flushed objects with explicit primary keys and is then refused by a later collection:
+    # the nested deletes popped the primary-key and key indexes; the undo must put every entry back
+    ('refused-cascade', _spec(2, [True, False], ckeys=[[0, 1]], with_p=True),
+     [{'k': 'create', 'cls': 0, 'kw': {'id': 10, 'a0': 1, 'a1': 1}, 'parent': 0}, {'k': 'create', 'cls': 0, 'kw': {'id': 11, 'a0': 2}, 'parent': 0},
+      {'k': 'create', 'cls': 0, 'kw': {'id': 12, 'a0': 3}, 'parent': 1}, {'k': 'pdelete', 'p': 0}, {'k': 'flush'},
+      {'k': 'get', 'cls': 0, 'pk': [10], 'kw': [], 'how': 'get'}, {'k': 'get', 'cls': 0, 'pk': None, 'kw': [[0, 2]]},
+      {'k': 'pdelete', 'p': 0}, {'k': 'pdelete', 'p': 1}, {'k': 'create', 'cls': 0, 'kw': {'id': 12, 'a0': 3}}]),
     # a stale pickle whose primary key now belongs to a NEW (unflushed) object: `assert obj._status_ not in created_or_deleted_statuses`
     ('unpickle-onto-created', _spec(1, [False]),
      [{'k': 'create', 'cls': 0, 'kw': {'id': 1, 'a0': 5}}, {'k': 'flush'}, {'k': 'pickle', 'o': 0}, {'k': 'delete', 'o': 0}, {'k': 'flush'},
